@@ -574,6 +574,59 @@ def run(ctx, R, R2):
             ctx.check(R, oke and okf and okn and okfo and oks, 'new:%s:fields' % kind, 'decoded node fields (end, is_final, ntrans, sizes, final_output) are not taken from the %s accessors' % kind, fn=f,
                       detail={k: fmt(v)[:50] for k, v in fd.items() if k in ('end', 'is_final', 'ntrans', 'sizes', 'final_output')})
         ctx.check(R, seen == {'EmptyFinal', 'OneTransNext', 'OneTrans', 'AnyTrans'}, 'new:forms', 'Node::new does not decode all four node forms (%s)' % sorted(seen), fn=f)
+    # ---- per-form dispatch of the public probes ---------------------------------------------------------
+    st_adt = lib.adts.get('raw::node::State')
+    vnames = [v['name'] for v in st_adt['variants']] if st_adt else []
+
+    def form_of(p):
+        d = [x for x in p.cdecisions() if x[2][0] == 'discr' and x[2][1][0] == 'field' and x[2][1][2] == 'state']
+        return vnames[d[-1][3]] if d and isinstance(d[-1][3], int) and d[-1][3] < len(vnames) else None
+    f = need(NODE + 'find_input')
+    if f and vnames:
+        seen = {}
+        for p in rets(f):
+            form = form_of(p)
+            rv = p.ret()
+            if form in ('OneTransNext', 'OneTrans'):
+                # Some(0) exactly when the node's single input byte equals the probe byte
+                d = [x for x in p.decisions if x[2][0] == 'bin' and x[2][1] in ('Eq', 'Ne', 'Lt', 'Le', 'Gt', 'Ge') and any(is_call(y, '::input') for y in walk(x[2])) and any(y[0] == 'param' and param_role(y) == 'B' for y in walk(x[2]))]
+                if not d:
+                    seen.setdefault(form, []).append(None)
+                    continue
+                if d[-1][2][1] not in ('Eq', 'Ne'):
+                    seen.setdefault(form, []).append(False)       # an ordering test where equality is required
+                    continue
+                equal = (d[-1][2][1] == 'Eq') == bool(d[-1][3])
+                good = (rv[0] == 'agg' and rv[1].endswith('::Some') and rv[2][0][1] == ('const', 0)) if equal else (rv[0] == 'agg' and rv[1].endswith('::None'))
+                own = any(is_call(y, '::input') and ('State' + form + '::') in y[1] for y in walk(d[-1][2]))
+                seen.setdefault(form, []).append(good and own)
+            elif form == 'AnyTrans':
+                seen.setdefault(form, []).append(rv[0] == 'call' and rv[1].endswith('StateAnyTrans::find_input') and any(y[0] == 'param' and param_role(y) == 'B' for y in walk(rv[2][2])))
+            elif form == 'EmptyFinal':
+                seen.setdefault(form, []).append(rv[0] == 'agg' and rv[1].endswith('::None'))
+        for form in ('OneTransNext', 'OneTrans', 'AnyTrans', 'EmptyFinal'):
+            v = seen.get(form)
+            if not v or any(x is None for x in v):
+                ctx.undecided(R2, 'find_input:' + form, 'the %s arm of Node::find_input was not recognised' % form, fn=f)
+            else:
+                ctx.check(R2, all(v), 'find_input:' + form,
+                          {'OneTransNext': 'a one-trans-next node has transition 0 exactly for its own input byte', 'OneTrans': 'a one-trans node has transition 0 exactly for its own input byte',
+                           'AnyTrans': 'an any-trans node must look the probe byte up in its own table / scan', 'EmptyFinal': 'the empty final node has no transitions'}[form], fn=f)
+    f = need(NODE + 'transition_addr')
+    if f and vnames:
+        seen = {}
+        for p in rets(f):
+            form = form_of(p)
+            rv = p.ret()
+            if form in ('OneTransNext', 'OneTrans', 'AnyTrans'):
+                ok = is_call(rv, '::trans_addr') and ('State' + form + '::') in rv[1] and (form != 'AnyTrans' or any(y[0] == 'param' and param_role(y) == 'I' for y in walk(rv[2][-1])))
+                seen.setdefault(form, []).append(ok)
+        for form in ('OneTransNext', 'OneTrans', 'AnyTrans'):
+            v = seen.get(form)
+            if not v:
+                ctx.undecided(R, 'transition_addr:' + form, 'the %s arm of Node::transition_addr was not recognised' % form, fn=f)
+            else:
+                ctx.check(R, all(v), 'transition_addr:' + form, 'the target of transition i must come from the address accessor of the node\'s own form', fn=f)
     f = need(NODE + 'transition')
     if f:
         seen = {}
